@@ -20,6 +20,11 @@ def main():
     cover.start()          # before athlib is imported: line coverage of the anchored functions (report only)
     core.import_athlib()
     mod = importlib.import_module('vf.props.%s' % prop.lower())
+    if ctx.ambient and ctx.ambient.get('warnings'):
+        # after the imports: only what the library warns about while it is used counts
+        import warnings
+        warnings.filterwarnings('error', module=r'athlib(\.|$)')
+        ctx.counters['ambient.athlib-warnings-are-errors'] += 1
     if replay:
         with open(replay) as f:
             r = json.load(f)
